@@ -35,9 +35,12 @@ def check_case(run, fcp, sch, name, v, text, sig=None):
 
     pristine = _copy.deepcopy(v)
     try:
-        b = bytes(serde.encode(fcp, name, v))
+        raw = serde.encode(fcp, name, v)
+        b = bytes(raw)
     except Exception as e:
         run.violation("encode raised %s: %s" % (type(e).__name__, e), case)
+        return
+    if not CC.earlier_results_intact(run, raw, b, case):
         return
     run.count("encode_compared")
     if not ref.same(v, pristine):
@@ -125,6 +128,15 @@ def conclude(run):
 
 
 def replay(run, case):
+    if "earlier_call" in case:
+        # history: the earlier encode() whose result the caller still holds
+        from fcp import serde
+
+        e = case["earlier_call"]
+        r0 = CC.parse(e["schema"])
+        if r0.is_ok():
+            raw = serde.encode(r0.unwrap(), e["struct"], e["value"])
+            CC.earlier_results_intact(run, raw, bytes(raw), e)
     res = CC.parse(case["schema"])
     if res.is_err():
         run.violation("front end rejected the schema: %r" % (res.err(),), case)
